@@ -87,6 +87,9 @@ class MmapedDict:
             # Read the first block of data, including the first 4 bytes which tell us
             # how much of the file (which is preallocated to _INITIAL_MMAP_SIZE bytes) is occupied.
             data = infp.read(mmap.PAGESIZE)
+            if len(data) < 4:
+                # The writer has created the file but not sized it yet: no entries.
+                return iter(())
             used = _unpack_integer(data, 0)[0]
             if used > len(data):  # Then read in the rest, if needed.
                 data += infp.read(used - len(data))
